@@ -3,6 +3,7 @@ package eval
 import (
 	"errors"
 	"fmt"
+	"slices"
 
 	"github.com/cedar-policy/cedar-go/internal/consts"
 	"github.com/cedar-policy/cedar-go/internal/extensions"
@@ -735,7 +736,15 @@ func newRecordLiteralEval(elements map[types.String]Evaler) *recordLiteralEval {
 
 func (n *recordLiteralEval) Eval(env Env) (types.Value, error) {
 	vals := types.RecordMap{}
-	for k, en := range n.elements {
+	// evaluate the fields in key order so that the error reported for a record with several
+	// failing fields does not depend on map iteration order
+	keys := make([]types.String, 0, len(n.elements))
+	for k := range n.elements {
+		keys = append(keys, k)
+	}
+	slices.Sort(keys)
+	for _, k := range keys {
+		en := n.elements[k]
 		v, err := en.Eval(env)
 		if err != nil {
 			return zeroValue(), err
